@@ -833,15 +833,16 @@ class AdapterLookupBase:
         result = None
         order = len(required)
         for registry in self._registry.ro:
-            byorder = registry._adapters
-            if order >= len(byorder):
+            try:
+                # Another thread can shorten this while we look
+                components = registry._adapters[order]
+            except IndexError:
                 continue
 
             extendors = registry._v_lookup._extendors.get(provided)
             if not extendors:
                 continue
 
-            components = byorder[order]
             result = _lookup(components, required, extendors, name, 0,
                              order)
             if result is not None:
@@ -869,13 +870,13 @@ class AdapterLookupBase:
         order = len(required)
         result = {}
         for registry in reversed(self._registry.ro):
-            byorder = registry._adapters
-            if order >= len(byorder):
+            try:
+                components = registry._adapters[order]
+            except IndexError:
                 continue
             extendors = registry._v_lookup._extendors.get(provided)
             if not extendors:
                 continue
-            components = byorder[order]
             _lookupAll(components, required, extendors, result, 0, order)
 
         self._subscribe(*required)
@@ -890,8 +891,9 @@ class AdapterLookupBase:
         order = len(required)
         result = []
         for registry in reversed(self._registry.ro):
-            byorder = registry._subscribers
-            if order >= len(byorder):
+            try:
+                components = registry._subscribers[order]
+            except IndexError:
                 continue
 
             if provided is None:
@@ -901,7 +903,7 @@ class AdapterLookupBase:
                 if extendors is None:
                     continue
 
-            _subscriptions(byorder[order], required, extendors, '',
+            _subscriptions(components, required, extendors, '',
                            result, 0, order)
 
         self._subscribe(*required)
